@@ -101,6 +101,7 @@ class C22(Property):
         logging.getLogger("streamflow").setLevel(logging.ERROR)
         self.gen = getattr(self, "gen", 0) + 1
         self.n = 0
+        self.reg_lines, self.reg_expect = [], []
         try:
             self.table = cmdtmpl.table(os.environ.get("SFV_REPO", "/repo"))
         except Exception as e:  # noqa: BLE001  (the framework has already recorded the broken extractor)
@@ -285,7 +286,20 @@ class C22(Property):
         elif not all(isinstance(obs[n + "_registered"], list) and any(av for _, av in obs[n + "_registered"]) for n in ("first", "second")):
             ctx.fail("transfer:concurrent:destination-not-registered-as-available", detail, replay)
 
+    def registry_model_line(self, case: dict, obs: dict) -> None:
+        """the registration steps of transfer_data on the Lean registry model vs what get_data_locations(final, destination) returns"""
+        if case["src_kind"].startswith("wrap") or case["dst_kind"].startswith("wrap") or obs["status"] != "ok" or not isinstance(obs["registered"], list):
+            return
+        if not (is_safe(obs["src"]) and is_safe(obs["dst"])):
+            return
+        locid = {"local": 0, "remA0": 1, "remA1": 2, "remB0": 3}
+        comps = lambda p: " ".join(hx(c) for c in p.split("/") if c)
+        self.reg_lines.append(f"reg {int(case['writable'])} {locid[case['src_kind']]} {locid[case['dst_kind']]} S {comps(obs['src'])} F {comps(obs['final'])}")
+        self.reg_expect.append((("objs " + " ".join(sorted(hx(p) for p, _, _ in obs["registered"]))).strip(),
+                                {"case": {k: case[k] for k in ("src_kind", "dst_kind", "writable", "dst_exists_dir")}, "registered": obs["registered"]}))
+
     def judge(self, ctx: Ctx, case: dict, obs: dict) -> None:
+        self.registry_model_line(case, obs)
         route = f"{case['src_kind'].rstrip('01')}->{case['dst_kind'].rstrip('01')}"
         if case["src_kind"] == case["dst_kind"]:
             route += ":same-location"
@@ -424,7 +438,13 @@ class C22(Property):
                 break
             obs = self.one_transfer(ctx, case)
             self.judge(ctx, case, obs)
-        got = ctx.lean("Drivers/C22.lean", lines)
+        all_got = ctx.lean("Drivers/C22.lean", lines + self.reg_lines)
+        got = all_got[:len(lines)]
+        for g, (e, sample) in zip(all_got[len(lines):], self.reg_expect):
+            ctx.count("registry-model")
+            if " ".join(sorted(g.split()[1:])) != " ".join(e.split()[1:]):
+                ctx.disagree("registration steps of transfer_data on the registry model", f"real {[unhx(x) for x in e.split()[1:]]}, "
+                             f"Lean model {[unhx(x) for x in g.split()[1:]]}", sample)
         for g, e, m in zip(got, expect, meta):
             if g != e:
                 ctx.disagree(f"model vs {m[0]}", f"{m[1]}: code {e!r} ({unhx(e.split()[1]) if len(e.split()) > 1 and e.split()[0] in ('xC', 'xCstrip', 'tee') else ''}), Lean model {g!r}", m[1])
